@@ -72,7 +72,7 @@ def Atom.core (a : Atom) : Core := .atom a.id a.kind.pol a.text
 /-! ### expression trees -/
 
 inductive Ex where
-  | raw (text : String) (named : Bool) (out : String) (flat : Flat)
+  | raw (text : List Char) (named : Bool) (out : String) (flat : Flat)
       -- clause.Expr (named = false) / clause.NamedExpr: `text` = the SQL template (what the detector
       -- inspects), `out` = what `Expr.Build` writes for it (placeholders expanded; see Model/Expr.lean)
   | atom (a : Atom)                                     -- Eq/Neq/Gt/Gte/Lt/Lte/Like/IN
@@ -86,8 +86,8 @@ def containsL : List Char → List Char → Bool
   | c :: r, pat => pat.isPrefixOf (c :: r) || containsL r pat
 
 /-- `strings.Contains(strings.ToUpper(sql), " AND ") || strings.Contains(…, " OR ")` (ASCII) -/
-def detector (text : String) : Bool :=
-  let u := text.toUpper.toList
+def detector (cs : List Char) : Bool :=
+  let u := cs.map Char.toUpper
   containsL u [' ', 'A', 'N', 'D', ' '] || containsL u [' ', 'O', 'R', ' ']
 
 def Ex.isSingleOr : Ex → Bool
@@ -171,7 +171,7 @@ def Ex.sound : Ex → Bool
     list with other operands has no top-level OR -/
 def soundList (multi : Bool) : List Ex → Bool
   | [] => true
-  | e :: r => e.sound && (!multi || wrapTest e || noTopOr (expandFlat e.build)) && soundList multi r
+  | e :: r => e.sound && (!multi || (!e.build.isEmpty && (wrapTest e || noTopOr (expandFlat e.build)))) && soundList multi r
 def soundNotA : List Ex → Bool
   | [] => true
   | (.atom _) :: r => soundNotA r
@@ -225,13 +225,17 @@ def swap0 (es : List Ex) (idx : Nat) : List Ex :=
   | some a, some b => (es.set 0 b).set idx a
   | _, _ => es
 
-def whereExprs (es : List Ex) : List Ex :=
-  let es1 := match es with
-    | [.and inner] => inner
-    | _ => es
+/-- `if len(where.Exprs) == 1 { if andCondition, ok := where.Exprs[0].(AndConditions) … }` -/
+def unwrapSingleAnd : List Ex → List Ex
+  | [.and inner] => inner
+  | es => es
+
+def swapFirst (es1 : List Ex) : List Ex :=
   match firstNonSingleOr es1 0 with
   | some (i + 1) => swap0 es1 (i + 1)
   | _ => es1
+
+def whereExprs (es : List Ex) : List Ex := swapFirst (unwrapSingleAnd es)
 
 def whereBuild (es : List Ex) : Flat :=
   let es2 := whereExprs es
@@ -245,7 +249,7 @@ def whereSound (es : List Ex) : Bool :=
 
 /-- what `BuildCondition` returns for one condition argument list: at most one expression -/
 inductive Form where
-  | raw (text : String) (named : Bool) (out : String) (flat : Flat)  -- string with/without `?`, `@name`
+  | raw (text : List Char) (named : Bool) (out : String) (flat : Flat)  -- string with/without `?`, `@name`
   | col (a : Atom)                                     -- `Where("name", v)`
   | fields (as : List Atom)                            -- map (sorted keys) / struct (non-zero fields)
   | expr (e : Ex)                                      -- a clause.Expression
